@@ -2461,7 +2461,37 @@ func genMvccSession(rng *rand.Rand, st *Stats) []string {
 				st.Inc("reopen")
 			}
 		case r < 100 && !managed:
-			continue
+			// C02: every key an update transaction reads THROUGH AN ITERATOR is a conflict key, including the
+			// keys beyond the iterator's first items (the Item objects of later positions are recycled ones,
+			// seed C02k): T1 scans n keys, T2 overwrites one of the LATER ones and commits, T1 writes
+			// elsewhere and commits: the commit must be rejected (the model decides; the oracle re-checks).
+			n := 3 + rng.Intn(6)
+			if memsz > 65536 && rng.Intn(4) == 0 {
+				n = 101 + rng.Intn(20) // beyond the default PrefetchSize
+			}
+			wid := nextID
+			nextID++
+			ops = append(ops, fmt.Sprintf("begin %d 1 0", wid))
+			for i := 0; i < n; i++ {
+				ops = append(ops, fmt.Sprintf("set %d %s 0 0 0 %s 0", wid, hx([]byte(fmt.Sprintf("q%04d", i))), hx([]byte("q0"))))
+			}
+			ops = append(ops, fmt.Sprintf("commit %d 0", wid))
+			t1 := nextID
+			t2 := nextID + 1
+			nextID += 2
+			rev := rng.Intn(2)
+			ops = append(ops, fmt.Sprintf("begin %d 1 0", t1),
+				fmt.Sprintf("iter %d rev=%d all=0 prefetch=%d prefix=71 seek=%s", t1, rev, rng.Intn(2), []string{"rewind", "71ff"}[rev]))
+			victim := n - 1 - rng.Intn(2) // late in a forward scan
+			if rev == 1 {
+				victim = rng.Intn(2) // late in a reverse scan
+			}
+			ops = append(ops, fmt.Sprintf("begin %d 1 0", t2),
+				fmt.Sprintf("set %d %s 0 0 0 %s 0", t2, hx([]byte(fmt.Sprintf("q%04d", victim))), hx([]byte("q1"))),
+				fmt.Sprintf("commit %d 0", t2),
+				fmt.Sprintf("set %d %s 0 0 0 %s 0", t1, hx([]byte("qsum")), hx([]byte("s"))),
+				fmt.Sprintf("commit %d 0", t1))
+			st.Inc("scenario_iter_read_conflict")
 		default:
 			if managed {
 				// the discard timestamp may only be raised (the oracle asserts it) and commits
